@@ -38,6 +38,7 @@ from ..modeleval import Interp, Pt, PyModel, PyRaise, NotModelled, Sink, clone_f
 ASR = "androguard/core/api_specific_resources/__init__.py"
 ANDROCONF = "androguard/core/androconf.py"
 ROOT = "/R"
+OWN_MUTATION_ADEQUACY = True  # mutation_adequacy() below runs rule-specific breaking and benign edits
 LENIENT = ("loguru.logger", "logger", "logging")
 
 
@@ -560,7 +561,10 @@ def mutation_adequacy(ctx, repo):
 
 def run(ctx):
     ctx.explanation = __doc__
-    core(ctx, ctx.repo)
+    try:
+        core(ctx, ctx.repo)
+    except PyRaise as e:
+        raise AnalysisError("model evaluation raised %s outside a decided clause" % e)
     ctx.floor("fallback_cases", 69)
     ctx.floor("mapping_cases", 14)
     ctx.floor("module_cases", 34)
